@@ -461,6 +461,10 @@ func parseTraversalStep(nativeStep hcl.Traverser, from inputTokens) (before inpu
             key := newNumber(valToken)
             step.key = children.Append(key)
             children.AppendUnstructuredTokens(valAfter.Tokens())
+        default:
+            // Any other literal (true, false, null) is also a valid index key
+            // in the native syntax; keep its tokens so that they are not lost.
+            children.AppendUnstructuredTokens(keyTokens.Tokens())
         }
 
         children.AppendUnstructuredTokens(cBrack.Tokens())
